@@ -267,6 +267,16 @@ func structuredMutants() []mutant {
 	add("handshake", "no-cr/slave", slaveEmpty, "[WL2K-5.0-B2FWIHJM$]")
 	add("handshake", "motd-10000/slave", slaveEmpty, strings.Repeat("motd line\r", 10000)+masterHS+"FF\r")
 	add("handshake", "pq-without-callback/slave", slaveEmpty, "[WL2K-5.0-B2FWIHJM$]\r;PQ: 12345678\rCMS>\rFF\r")
+	// challenges answered by a station WITH a password callback and an auxiliary address: the answer is
+	// computed from a hash of remote-chosen bytes, so what happens depends on the VALUE of that hash (small
+	// values, leading zeros): a run of 700 consecutive numeric challenges and a few odd ones
+	secure := baseWorld(4)
+	for i := 0; i < 700; i++ {
+		add("challenge", fmt.Sprintf("numeric-%d/slave", i), secure, fmt.Sprintf("[WL2K-5.0-B2FWIHJM$]\r;PQ: %08d\rCMS>\rFF\rFQ\r", 23753000+i))
+	}
+	for i, ch := range []string{"", " ", "0", "00000000", "99999999", "-1", "1e9", "abcdefgh", strings.Repeat("7", 64), strings.Repeat("x", 5000), "12345678 ", " 12345678", "1234\x005678", "\xff\xfe\xfd", "12345678>"} {
+		add("challenge", fmt.Sprintf("odd-%d/slave", i), secure, "[WL2K-5.0-B2FWIHJM$]\r;PQ: "+ch+"\rCMS>\rFF\rFQ\r")
+	}
 
 	// B. proposals
 	good := msgBytes("CARRIER", 20)
